@@ -37,7 +37,7 @@ def verus(unit_path, timeout=900, threads=16, multiple_errors=10, extra=None):
     """-> dict(verified, errors, failures=[...], func_times, wall_s, cmd)"""
     cwd = os.path.dirname(unit_path)
     cmd = ['verus', os.path.basename(unit_path), '--error-format=json', '--output-json', '--time',
-           '--multiple-errors', str(multiple_errors), '--num-threads', str(threads)]
+           '--multiple-errors', str(multiple_errors), '--num-threads', str(threads), '--rlimit', '60']
     if extra:
         cmd += extra
     rc, out, err, wall = run(cmd, cwd=cwd, timeout=timeout)
